@@ -1233,12 +1233,55 @@ func (e *SpecEnv) pureAppFacts(cal *Callee, recv *Value, args []Value, res Value
 	}
 	var pres []Term
 	for _, r := range cal.ct.Requires {
+		if specHasQuant(r.Expr) {
+			return
+		}
 		pres = append(pres, env.eval(r.Expr).T)
 	}
 	pre := tAnd(pres...)
 	for _, c := range cal.ct.Ensures {
+		// quantified postconditions stay with the code-level call sites: as
+		// global axioms they cost every query its decidability
+		if specHasQuant(c.Expr) {
+			continue
+		}
 		vc.axioms = append(vc.axioms, tImplies(pre, env.eval(c.Expr).T))
 	}
+}
+
+func specHasQuant(e SExpr) bool {
+	found := false
+	var walk func(e SExpr)
+	walk = func(e SExpr) {
+		if e == nil || found {
+			return
+		}
+		switch t := e.(type) {
+		case *SQuant:
+			found = true
+		case *SBin:
+			walk(t.X)
+			walk(t.Y)
+		case *SUn:
+			walk(t.X)
+		case *SCall:
+			walk(t.Fun)
+			for _, a := range t.Args {
+				walk(a)
+			}
+		case *SSel:
+			walk(t.X)
+		case *SIndex:
+			walk(t.X)
+			walk(t.I)
+		case *SCond:
+			walk(t.C)
+			walk(t.A)
+			walk(t.B)
+		}
+	}
+	walk(e)
+	return found
 }
 
 func sortedNames(m map[string]Value) []string {
